@@ -83,12 +83,16 @@ struct hilbert {
         std::size_t x = c[0];
         std::size_t y = c[1];
 
-        // TODO: `sizes[0]` has to equal `sizes[1]`.
-        for (s = sizes[0] / 2; s > 0; s /= 2) {
+        // The curve is walked on the enclosing power-of-two square, which is
+        // also what the storage is sized for.
+        const std::size_t n =
+            utility::round_pow2(std::max(sizes[0], sizes[1]));
+
+        for (s = n / 2; s > 0; s /= 2) {
             rx = (x & s) > 0;
             ry = (y & s) > 0;
             d += s * s * ((3 * rx) ^ ry);
-            rot(sizes[0], &x, &y, rx, ry);
+            rot(n, &x, &y, rx, ry);
         }
 
         return d;
@@ -115,7 +119,7 @@ struct hilbert {
         typename T::parent_t::non_owning_data_t nother(other);
 
         utility::nd_map<decltype(sizes)>(
-            [&nother, &res](decltype(sizes) t) {
+            [&sizes, &nother, &res](decltype(sizes) t) {
                 coordinate_t c;
 
                 for (std::size_t i = 0; i < contravariant_input_t::dimensions;
@@ -123,7 +127,7 @@ struct hilbert {
                     c[i] = t[i];
                 }
 
-                std::size_t idx = calculate_index(c);
+                std::size_t idx = calculate_index(c, sizes);
 
                 for (std::size_t i = 0; i < covariant_output_t::dimensions; ++i)
                 {
@@ -271,7 +275,7 @@ struct hilbert {
             }
 #endif
 
-            return m_storage.at(calculate_index(c));
+            return m_storage.at(calculate_index(c, m_sizes));
         }
 
         typename backend_t::non_owning_data_t & get_backend(void)
